@@ -13,6 +13,7 @@ pub struct CFrameItem {
     pub len: c_size_t,
 }
 
+#[cfg(not(miri))]
 extern "C" {
     pub static c_sizeof_frameItem: c_size_t;
     pub static c_alignof_frameItem: c_size_t;
@@ -25,3 +26,77 @@ extern "C" {
     pub fn c_forwardBits(frame: &mut CFrameItem, n: usize);
     pub fn c_skipBits(frame: &mut CFrameItem, n: usize);
 }
+
+/// Pure-Rust transcriptions of the frame primitives of `depend/simplicity/frame.h`, used only when
+/// the crate is interpreted by Miri (which cannot call into C). They let a verification harness
+/// run the Rust side of jet execution — marshalling of the input frame, the call through
+/// `JetEnvironment::c_jet_ptr`, unmarshalling of the output frame — under Miri with jets supplied
+/// by the harness. Never compiled into a normal build.
+#[cfg(miri)]
+mod miri_shims {
+    use super::CFrameItem;
+    use crate::ffi::{c_size_t, c_uchar, UWORD};
+
+    const UWORD_BIT: usize = 8 * std::mem::size_of::<UWORD>();
+
+    fn round_uword(n: usize) -> usize {
+        n.div_ceil(UWORD_BIT)
+    }
+
+    #[allow(non_upper_case_globals)]
+    pub static c_sizeof_frameItem: c_size_t = std::mem::size_of::<CFrameItem>();
+    #[allow(non_upper_case_globals)]
+    pub static c_alignof_frameItem: c_size_t = std::mem::align_of::<CFrameItem>();
+
+    #[allow(non_snake_case)]
+    pub(crate) unsafe fn c_initWriteFrame(frame: &mut CFrameItem, n: c_size_t, from: *const UWORD) {
+        frame.edge = from.sub(round_uword(n)) as *const c_uchar;
+        frame.len = n;
+    }
+
+    #[allow(non_snake_case)]
+    pub(crate) unsafe fn c_initReadFrame(frame: &mut CFrameItem, n: c_size_t, from: *const UWORD) {
+        let len = round_uword(n);
+        frame.edge = from.add(len) as *const c_uchar;
+        frame.len = len * UWORD_BIT - n;
+    }
+
+    #[allow(non_snake_case)]
+    pub unsafe fn c_readBit(frame: &mut CFrameItem) -> bool {
+        let edge = frame.edge as *const UWORD;
+        let word = *edge.sub(1 + frame.len / UWORD_BIT);
+        let bit = (word >> (UWORD_BIT - (frame.len % UWORD_BIT) - 1)) & 1 == 1;
+        frame.len += 1;
+        bit
+    }
+
+    #[allow(non_snake_case)]
+    pub unsafe fn c_writeBit(frame: &mut CFrameItem, bit: bool) {
+        frame.len -= 1;
+        let dst = (frame.edge as *mut UWORD).add(frame.len / UWORD_BIT);
+        let k = frame.len % UWORD_BIT;
+        if bit {
+            *dst |= (1 as UWORD) << k;
+        } else if k + 1 == UWORD_BIT {
+            *dst = 0;
+        } else {
+            // clear the k + 1 least significant bits
+            *dst = (*dst >> (k + 1)) << (k + 1);
+        }
+    }
+
+    #[allow(non_snake_case)]
+    pub unsafe fn c_forwardBits(frame: &mut CFrameItem, n: usize) {
+        frame.len += n;
+    }
+
+    #[allow(non_snake_case)]
+    pub unsafe fn c_skipBits(frame: &mut CFrameItem, n: usize) {
+        frame.len -= n;
+    }
+}
+
+#[cfg(miri)]
+pub use miri_shims::{c_alignof_frameItem, c_forwardBits, c_readBit, c_sizeof_frameItem, c_skipBits, c_writeBit};
+#[cfg(miri)]
+pub(crate) use miri_shims::{c_initReadFrame, c_initWriteFrame};
